@@ -69,16 +69,16 @@ async function build (tier) {
       leaves.push({ fam: 'lattice', key: 'lat¦' + ENTRIES.map((e, i) => l.pick['r' + i] ? 2 : l.pick['e' + i] ? 1 : 0).join('') + '¦' + l.pick.variant + (l.pick.extra ? '¦' + l.pick.extra : ''), config, variant: l.pick.variant })
     }
     // every configuration made of <= 2 entries out of the generated entry kinds: source name x operator flag
-    // {true, false, omitted} x replacement name {omitted, own, shared} x allowedWithoutCallee {omitted, true}
+    // {true, false, omitted} x replacement name {omitted, own, shared} x allowedWithoutCallee {omitted, true, false}
     const KINDS = []
-    for (const src of ['plusOperator', 'tplOperator', 'trim', 'concat', 'aloneMethod']) for (const op of [true, false, undefined]) for (const dst of [undefined, 'd_' + src, 'shared']) for (const awc of [undefined, true]) {
+    for (const src of ['plusOperator', 'tplOperator', 'trim', 'concat', 'aloneMethod']) for (const op of [true, false, undefined]) for (const dst of [undefined, 'd_' + src, 'shared']) for (const awc of [undefined, true, false]) {
       const e = { src }
       if (op !== undefined) e.operator = op
       if (dst !== undefined) e.dst = dst
       if (awc !== undefined) e.allowedWithoutCallee = awc
       KINDS.push(e)
     }
-    const two = tier === 'thorough' ? KINDS : KINDS.filter((e, i) => i % 2 === 0 || e.operator === undefined)
+    const two = tier === 'thorough' ? KINDS : KINDS.filter((e, i) => i % 3 === 0 || e.operator === undefined)
     for (let i = 0; i < KINDS.length; i++) {
       stats.states++; stats.transitions++
       leaves.push({ fam: 'lattice', key: 'kind¦' + JSON.stringify(KINDS[i]), config: { localVarPrefix: 'p', csiMethods: [KINDS[i]] }, variant: null })
